@@ -158,6 +158,8 @@ pub struct Stats {
     pub runs: u64,
     pub abs_states: HashSet<u32>,
     pub transitions: HashSet<u64>,
+    /// distinct (type, sign/regime/exponent of both factors, +=/-=) classes of accumulated products
+    pub prod_classes: HashSet<u32>,
     /// hashes of distinct histories that satisfy the non-triviality rule
     pub nontrivial: HashSet<u64>,
     pub nontrivial_runs: u64,
@@ -175,6 +177,7 @@ impl Stats {
             runs: 0,
             abs_states: HashSet::new(),
             transitions: HashSet::new(),
+            prod_classes: HashSet::new(),
             nontrivial: HashSet::new(),
             nontrivial_runs: 0,
             outcomes: [HashSet::new(), HashSet::new(), HashSet::new()],
@@ -203,6 +206,7 @@ impl Stats {
         self.nontrivial_runs += o.nontrivial_runs;
         self.abs_states.extend(o.abs_states);
         self.transitions.extend(o.transitions);
+        self.prod_classes.extend(o.prod_classes);
         self.nontrivial.extend(o.nontrivial);
         for i in 0..3 {
             let s = std::mem::take(&mut self.outcomes[i]);
